@@ -159,4 +159,5 @@ def run(prog, rep, tier, cfg):
     X.accumulator_integrity('K12', 'running-totals', ['fil_actor_paych'], 'running totals of amounts')
     X.no_dropped_results('K14', 'results-not-discarded', ['fil_actor_paych'], 'no Result of a call is discarded')
     X.tolerated_failures('K15', 'tolerated-failures', ['fil_actor_paych'], 'tolerated failures are the reviewed ones')
+    X.write_sites_preserved('K16', 'updates-present', 'fil_actor_paych', ['State.to_send', 'State.settling_at', 'State.min_settle_height', 'State.lane_states', 'LaneState.redeemed', 'LaneState.nonce'], 'state updates do not disappear')
 
